@@ -12,6 +12,11 @@ package mqttproxy
 // passed the early cap check is parked inside the authentication pipeline until all of them have
 // arrived, so that all of them reach the second check in handleConn together.
 //
+// A further kind of burst ("stale takeover") holds ONE takeover CONNECT in that pipeline while the
+// connection it takes over leaves by itself (closed, waited until unregistered) and fresh ids
+// connect into the freed room; only then the takeover is let go. A decision taken at the early
+// check (e.g. "this is a takeover, it needs no slot") is stale by then.
+//
 // Oracle: H = set of client ids for which the harness holds an accepted CONNACK on a socket it has
 // not closed (an id is added after the CONNACK was read and removed before the socket is closed; a
 // takeover replaces the holder, it does not add). Every member of H is a connected client, so
@@ -35,6 +40,7 @@ import (
 	"github.com/eclipse/paho.mqtt.golang/packets"
 	"github.com/megaease/easegress/pkg/context"
 	"github.com/megaease/easegress/pkg/logger"
+	"github.com/megaease/easegress/pkg/protocols/mqttprot"
 	"pgregory.net/rapid"
 )
 
@@ -65,6 +71,7 @@ type vfC17MRig struct {
 
 	// auth gate
 	hold     bool
+	holdIDs  map[string]bool // CONNECTs of these client ids stay parked in the Connect pipeline
 	arrived  int
 	answered int
 
@@ -86,10 +93,14 @@ func (r *vfC17MRig) logf(format string, args ...interface{}) {
 
 // Handle is the Connect pipeline: parks the CONNECT while the gate is held.
 func (r *vfC17MRig) Handle(ctx *context.Context) string {
+	cid := ""
+	if req, ok := ctx.GetRequest(context.DefaultNamespace).(*mqttprot.Request); ok && req.Client() != nil {
+		cid = req.Client().ClientID()
+	}
 	r.mu.Lock()
 	r.arrived++
 	r.cond.Broadcast()
-	for r.hold {
+	for r.hold || r.holdIDs[cid] {
 		r.cond.Wait()
 	}
 	r.mu.Unlock()
@@ -308,7 +319,7 @@ func TestVerifC17Mqtt(t *testing.T) {
 		if withAuth {
 			spec.Rules = []*Rule{{When: &When{PacketType: Connect}, Pipeline: "vf-auth"}}
 		}
-		r := &vfC17MRig{cap: capN, held: map[string]*vfC17Cli{}, tookOver: map[string]bool{}, takingOver: map[string]bool{}, reconnected: map[string]bool{},
+		r := &vfC17MRig{cap: capN, held: map[string]*vfC17Cli{}, tookOver: map[string]bool{}, takingOver: map[string]bool{}, reconnected: map[string]bool{}, holdIDs: map[string]bool{},
 			closedOnce: map[string]bool{}, cleanOf: map[string]bool{}}
 		r.cond = sync.NewCond(&r.mu)
 		// port 0: the kernel picks the port atomically inside newBroker; a transient failure (ephemeral
@@ -365,6 +376,180 @@ func TestVerifC17Mqtt(t *testing.T) {
 				heldNow[id] = true
 			}
 			r.mu.Unlock()
+			// ---- stale-takeover schedule
+			if withAuth && len(heldNow) > 0 && rapid.IntRange(0, 3).Draw(rt, "staleTakeover") == 0 {
+				hids := make([]string, 0, len(heldNow))
+				for id := range heldNow {
+					hids = append(hids, id)
+				}
+				sort.Strings(hids)
+				x := hids[rapid.IntRange(0, 63).Draw(rt, "staleTarget")%len(hids)]
+				nFresh := rapid.IntRange(0, 2).Draw(rt, "staleFresh")
+				graceful := rapid.Bool().Draw(rt, "staleGraceful")
+				var freshIDs []string
+				for i := 0; i < nids && len(freshIDs) < nFresh; i++ {
+					if id := fmt.Sprintf("c%d", i); !heldNow[id] {
+						freshIDs = append(freshIDs, id)
+					}
+				}
+				script = append(script, fmt.Sprintf("{stale-takeover of %s parked; %s leaves (disc:%v); fresh %v connect; takeover released}", x, x, graceful, freshIDs))
+				vf.Class("stale-takeover-schedule")
+				full := len(heldNow) >= capN
+
+				conn, err := vfC17MDial(r.addr)
+				if err != nil {
+					inconclusive = "cannot dial the broker: " + err.Error()
+					break bursts
+				}
+				connsMu.Lock()
+				allConns = append(allConns, conn)
+				connsMu.Unlock()
+				r.mu.Lock()
+				r.logf("-- burst %d stale takeover of %s (held=%d)", bi, x, len(r.held))
+				r.holdIDs[x] = true
+				r.arrived, r.answered = 0, 0
+				r.seq++
+				tk := &vfC17Cli{id: x, seq: r.seq, clean: clean, conn: conn, how: "takeover"}
+				r.takingOver[x] = true
+				r.cleanOf[x] = clean
+				r.mu.Unlock()
+				tkOut := ""
+				tkDone := make(chan struct{})
+				go func() {
+					defer close(tkDone)
+					out := vfC17Exchange(tk.conn, tk.id, tk.clean)
+					r.mu.Lock()
+					tkOut = out
+					r.answered++
+					delete(r.takingOver, tk.id)
+					if out == "accepted" {
+						r.onAccepted(tk)
+					} else {
+						r.logf("%s#%d %s", tk.id, tk.seq, out)
+					}
+					r.cond.Broadcast()
+					r.mu.Unlock()
+					if out != "accepted" {
+						vfC17HardClose(tk.conn)
+					}
+				}()
+				tm := time.AfterFunc(vfC17MqttWait, func() {
+					r.mu.Lock()
+					r.timeout = true
+					r.cond.Broadcast()
+					r.mu.Unlock()
+				})
+				r.mu.Lock()
+				for r.arrived+r.answered < 1 && !r.timeout {
+					r.cond.Wait()
+				}
+				parked := r.arrived >= 1 && r.answered == 0
+				if r.timeout {
+					inconclusive = "takeover CONNECT neither reached the Connect pipeline nor was answered"
+				}
+				r.mu.Unlock()
+				tm.Stop()
+				if parked && inconclusive == "" {
+					nontrivial = true
+					vf.Class("stale-takeover-parked-in-auth")
+					if full {
+						vf.Class("stale-takeover-parked-although-broker-full")
+					}
+					// the connection being taken over leaves by itself
+					r.mu.Lock()
+					tk.how = "reconnect" // by the time it registers the id is simply connecting again
+					r.mu.Unlock()
+					r.closeCli(x, graceful)
+					deadline := time.Now().Add(vfC17MqttWait)
+					for {
+						if _, still := r.b.currentClients()[x]; !still {
+							break
+						}
+						if time.Now().After(deadline) {
+							inconclusive = "broker registry still lists the closed target of the parked takeover"
+							break
+						}
+						time.Sleep(200 * time.Microsecond)
+					}
+					// fresh ids connect into the freed room (sequentially, not held at the gate)
+					for _, id := range freshIDs {
+						if inconclusive != "" {
+							break
+						}
+						fc, err := vfC17MDial(r.addr)
+						if err != nil {
+							inconclusive = "cannot dial the broker: " + err.Error()
+							break
+						}
+						connsMu.Lock()
+						allConns = append(allConns, fc)
+						connsMu.Unlock()
+						r.mu.Lock()
+						r.seq++
+						fcli := &vfC17Cli{id: id, seq: r.seq, clean: clean, conn: fc, how: "fresh"}
+						if r.closedOnce[id] {
+							r.reconnected[id] = true
+							fcli.how = "reconnect"
+						}
+						r.cleanOf[id] = clean
+						r.mu.Unlock()
+						out := vfC17Exchange(fc, id, clean)
+						r.mu.Lock()
+						switch {
+						case out == "accepted":
+							r.onAccepted(fcli)
+						case out == "unavailable":
+							sawRefused++
+							r.logf("%s#%d unavailable (takeover of %s still parked)", id, fcli.seq, x)
+						case out == "timeout":
+							inconclusive = "no answer to a fresh CONNECT while a takeover is parked"
+						default:
+							r.viols = append(r.viols, [2]string{"connect-answered-neither-accepted-nor-server-unavailable", fmt.Sprintf("CONNECT of %s while a takeover is parked: %s", id, out)})
+						}
+						r.mu.Unlock()
+						if out != "accepted" {
+							vfC17HardClose(fc)
+						}
+					}
+					r.mu.Lock()
+					if len(r.held) >= capN {
+						vf.Class("stale-takeover-released-while-broker-full-again")
+					}
+					r.mu.Unlock()
+				}
+				r.mu.Lock()
+				r.logf("gate for %s opened", x)
+				delete(r.holdIDs, x)
+				r.cond.Broadcast()
+				r.mu.Unlock()
+				<-tkDone
+				r.mu.Lock()
+				switch {
+				case tkOut == "accepted":
+					vf.Class("stale-takeover-accepted")
+				case tkOut == "unavailable":
+					sawRefused++
+					if parked {
+						vf.Class("stale-takeover-refused-at-registration")
+					} else {
+						vf.Class("ambiguous-takeover-refused-while-full")
+					}
+				case tkOut == "timeout":
+					inconclusive = "no answer to the takeover CONNECT"
+				default:
+					r.viols = append(r.viols, [2]string{"connect-answered-neither-accepted-nor-server-unavailable", fmt.Sprintf("takeover CONNECT of %s: %s", x, tkOut)})
+				}
+				r.mu.Unlock()
+				if finish() {
+					return
+				}
+				if !r.settle() {
+					inconclusive = "broker registry still lists clients whose sockets were closed"
+					break
+				}
+				continue
+			}
+
 			var bu vfC17Burst
 			propensity := rapid.SampledFrom([]int{0, 1, 3, 5, 7, 9, 10}).Draw(rt, "connectPropensity")
 			for i := 0; i < nids; i++ {
